@@ -213,14 +213,14 @@ Proof. exact xsi_target_main. Qed.
 (** the same with Spyne's Integer / Unicode / Boolean text codecs (C08 through C01/Leaf.v) and
     the registry the interface builds: nothing left to assume about leaves *)
 Theorem C16_xml_poly_rt_spyne : forall (tns : text) (poly : bool) (pm : text -> text) (U : universe)
-    (fuel : nat) (roots : list cid) (reg : registry),
+    (fuel : nat) (roots : list cid) (reg : registry) (unres : list (text * text)),
   wf_universe U = true -> (forall ns, pfx_ok (pm ns) = true) ->
   populate shape_src U tns fuel roots = Some reg ->
   forall n t v ns name,
     pconf spyne_leaf U poly (registered reg U) n t v = true ->
-    exists e, penc shape_src spyne_leaf (mkpcfg false tns poly true pm reg) U n t ns name v = Ok e
+    exists e, penc shape_src spyne_leaf (mkpcfg false tns poly true pm reg unres) U n t ns name v = Ok e
               /\ forall sc nillable,
-                   pdec shape_src spyne_leaf (mkpcfg false tns poly true pm reg) U n sc t nillable (wire e) = Ok (pnorm U n t v).
+                   pdec shape_src spyne_leaf (mkpcfg false tns poly true pm reg unres) U n sc t nillable (wire e) = Ok (pnorm U n t v).
 Proof. exact xml_rt_spyne_main. Qed.
 
 Theorem C16_hier_poly_rt_spyne : forall U poly, wf_universe U = true -> sub_names_ok U = true ->
@@ -252,7 +252,7 @@ Definition ex_box : val :=
                VList [VObj 0%nat [VLeaf (LInt 0)]; VObj 1%nat [VLeaf (LInt 1)]; ex_leafv];
                VList [VObj 2%nat [VLeaf (LInt 5); VNone; VNone]; VObj 1%nat [VLeaf (LInt 6)]] ].
 Definition ex_msg : val := VObj 5%nat [ex_box].
-Definition ex_cfg (poly : bool) : pcfg := mkpcfg false ua poly true ex_pm ex_reg.
+Definition ex_cfg (poly : bool) : pcfg := mkpcfg false ua poly true ex_pm ex_reg [].
 
 Example C16_ex_extends :
   bases_ok [mkpy None ub [65] [fld [97] (TPrim PInt) 0 (Some 1)]; mkpy (Some 0%nat) ub [66] []; mkpy (Some 1%nat) ub [67] [fld [99] (TPrim PInt) 0 (Some 1)]]
